@@ -225,10 +225,16 @@ def run_save(vc, case, k):
     cont = case.get("contour") or _Contour(case["coords"], case.get("object_cells", False))
     if case.get("ints"):
         cont.coordinates = cont.coordinates.astype(np.int64)
+    cwd = os.getcwd()
     try:
-        vc.save_contour_coordinates(cont, os.path.join(d, rel), case["semantics"])
+        # "relative": the path is handed over as the user typed it (possibly a bare file name), from inside the directory
+        if case.get("relative"):
+            os.chdir(d)
+        vc.save_contour_coordinates(cont, rel if case.get("relative") else os.path.join(d, rel), case["semantics"])
     except Exception as e:  # noqa
         return {"err": type(e).__name__ + ": " + str(e)[:100]}
+    finally:
+        os.chdir(cwd)
     after = set()
     for root, _, files in os.walk(d):
         after |= {os.path.relpath(os.path.join(root, f), d) for f in files}
@@ -670,7 +676,7 @@ def check_dependence_axes(vp, plt, name, model, semantics, out, own_axes=False):
     return len(panels)
 
 
-def random_nd_model(rng, n_dim, fitted, nprng):
+def random_nd_model(rng, n_dim, fitted, nprng, force=None):
     """hierarchical model with 2-4 dimensions whose conditional dimensions have DIFFERENT numbers of conditional
     parameters (2, 1, 2, ...), conditional on random lower dimensions; optionally fitted to a sample of itself"""
     import virocon as v
@@ -697,9 +703,11 @@ def random_nd_model(rng, n_dim, fitted, nprng):
 
     kinds = []
     for d in range(1, n_dim):
-        kinds.append(rng.choice(["ln2", "w1", "w2", "ln1", "none"] if d > 1 else ["ln2", "ln2", "w1", "ln1"]))
+        kinds.append(rng.choice(["ln2", "w1", "w2", "ln1", "lns", "wb", "none"] if d > 1 else ["ln2", "ln2", "w1", "ln1"]))
     if n_dim >= 3 and len({k for k in kinds if k != "none"}) < 2:
         kinds[0], kinds[1] = "ln2", "w1"          # make the counts differ
+    if force:          # a FIXED parameter that precedes the conditional one in the distribution's parameter order
+        kinds[0] = force
     cond = [rng.randrange(0, d) for d in range(1, n_dim)]
 
     def descriptions(with_slicers):
@@ -711,6 +719,12 @@ def random_nd_model(rng, n_dim, fitted, nprng):
             elif k == "ln1":
                 dd = {"distribution": v.LogNormalDistribution(f_sigma=0.25), "conditional_on": c,
                       "parameters": {"mu": v.DependenceFunction(power3, b3)}}
+            elif k == "lns":
+                dd = {"distribution": v.LogNormalDistribution(f_mu=1.2), "conditional_on": c,
+                      "parameters": {"sigma": v.DependenceFunction(exp3, b3)}}
+            elif k == "wb":
+                dd = {"distribution": v.WeibullDistribution(f_alpha=3.0, f_gamma=0.0), "conditional_on": c,
+                      "parameters": {"beta": v.DependenceFunction(lin_b, b2)}}
             elif k == "w1":
                 dd = {"distribution": v.WeibullDistribution(f_beta=2.0, f_gamma=0.0), "conditional_on": c,
                       "parameters": {"alpha": v.DependenceFunction(lin, b2)}}
@@ -889,7 +903,7 @@ def check_other_plots(ctx, virocon, vp, plt, rng):
         n_dim = [3, 3, 4, 2][k % 4]
         fitted = k % 2 == 1
         try:
-            m, kinds = random_nd_model(rng, n_dim, fitted, nprng)
+            m, kinds = random_nd_model(rng, n_dim, fitted, nprng, force={1: "lns", 3: "wb", 5: "lns"}.get(k % 6))
         except Exception as e:  # noqa  (fitting a random structure may fail: not the subject here)
             ctx.notes["nd_models_not_built"] = ctx.notes.get("nd_models_not_built", 0) + 1
             continue
@@ -972,6 +986,10 @@ def run(ctx):
         n_dim = rng.choice([2, 2, 2, 3, 3, 1, 4])
         save_cases.append({"function": "save_contour_coordinates", "kind": "synthetic", "coords": rand_coords(rng, nprng, n_dim),
                            "semantics": rand_semantics(rng, n_dim), "path": rand_path(rng)})
+        if k < 4:       # EVERY run: bare file names relative to the working directory, with and without extension
+            save_cases[-1].update(path=["contour", "contour.txt", "c.dat.bak", "UPPER.TXT"][k], relative=True)
+        elif rng.random() < 0.3:
+            save_cases[-1]["relative"] = True
         if rng.random() < 0.1:
             save_cases[-1]["ints"] = True
             save_cases[-1]["coords"] = np.round(save_cases[-1]["coords"]) + 0.0
@@ -994,7 +1012,7 @@ def run(ctx):
     save_or = [oracle_save(c, r) for c, r in zip(save_cases, save_res)]
     for c in save_cases:
         k = "save/%s/%dD/%s/%s" % (c["kind"] if c["kind"] != "synthetic" else "synthetic", np.asarray(c["coords"]).shape[1],
-                                   "default-semantics" if c["semantics"] is None else "semantics", "ext" if has_extension(c["path"]) else "no-ext")
+                                   "default-semantics" if c["semantics"] is None else "semantics", ("ext" if has_extension(c["path"]) else "no-ext") + ("/relative" if c.get("relative") else ""))
         dist[k] = dist.get(k, 0) + 1
         ctx.count(("save", np.asarray(c["coords"]).tolist(), str(c["semantics"]), c["path"]), len(c["coords"]) >= 2)
 
